@@ -312,6 +312,9 @@ func runProtocol(kc *kernelCtx, blocks []*Block, only string, want map[string]bo
 		if on("C08") {
 			pc.p5Sync(s)
 		}
+		if on("C13") {
+			pc.p7Lockset(s)
+		}
 	}
 	if on("C12") {
 		pc.p3Lazy(sites, only)
